@@ -228,6 +228,7 @@ static int emitCorpus(const char *dir, int count, uint64_t seed) {
 
 int main(int argc, char **argv) {
   if (argc == 5 && std::string(argv[1]) == "--emit") return emitCorpus(argv[2], atoi(argv[3]), strtoull(argv[4], nullptr, 10));
+  case_cpu_limit() = 20;
   add<C>("mutants", 1, genC, ser, de, run);
   return main_(argc, argv);
 }
